@@ -27,8 +27,31 @@ def _array_bound(qt):
     return None, None
 
 
+def _inline_accessor(unit, e):
+    """`obj.getter()` where getter's body is `return <member>;` -> the MemberExpr it returns"""
+    e0 = A.strip_casts(e)
+    if e0.get("kind") == "CXXMemberCallExpr" and len(A.kids(e0)) == 1:
+        callee = A.strip_casts(A.kids(e0)[0])
+        if callee.get("kind") == "MemberExpr":
+            md = unit.by_id.get(callee.get("referencedMemberDecl"))
+            name = callee.get("name")
+            cands = [md] if md is not None else []
+            for q, fns in unit.functions.items():
+                if q.endswith("::" + str(name)):
+                    cands += fns
+            for fn in cands:
+                body = unit.body(fn) if fn is not None else None
+                if body is not None:
+                    st = A.kids(body)
+                    if len(st) == 1 and st[0].get("kind") == "ReturnStmt":
+                        r = A.strip_casts(A.kids(st[0])[0])
+                        if r.get("kind") == "MemberExpr":
+                            return r
+    return e
+
+
 def _decl_of(unit, e):
-    e = A.strip_casts(e)
+    e = A.strip_casts(_inline_accessor(unit, e))
     if e.get("kind") == "DeclRefExpr":
         return unit.by_id.get(e["referencedDecl"]["id"]) or e["referencedDecl"], e
     if e.get("kind") == "MemberExpr":
@@ -97,7 +120,7 @@ def resolve_capacity(unit, fn, buf):
 
 def len_value(unit, fn, ln, bufdecl_id=None):
     """-> int | ('sizeof', decl id) | ('sym', text) | ('param', name)"""
-    e = A.strip_casts(ln)
+    e = A.strip_casts(_inline_accessor(unit, ln))
     v = A.int_literal(e)
     if v is not None:
         return v
@@ -135,10 +158,24 @@ def check_site(unit, fn, call, name):
             return True, detail
         return None, detail
     if shape in ("vla", "new[]"):
-        if isinstance(lv, tuple) and lv[0] in ("sym", "param") and lv[1] == cap:
+        capname = cap.replace("this->", "")
+        if isinstance(lv, tuple) and lv[0] in ("sym", "param") and lv[1] in (cap, capname):
             return True, detail
         if isinstance(lv, tuple) and lv[0] == "sym" and A.src(A.strip_casts(ln)) == cap:
             return True, detail
+        if isinstance(lv, tuple) and lv[0] == "sym" and d is not None and d.get("kind") == "FieldDecl":
+            # another field of the same class: its constructor initialiser is a product/sum over the capacity field?
+            rec = unit.parent.get(d.get("id"))
+            for fns in unit.functions.values():
+                for fn_ in fns:
+                    if fn_.get("kind") != "CXXConstructorDecl":
+                        continue
+                    for ci in A.kids(fn_):
+                        if ci.get("kind") == "CXXCtorInitializer" and (ci.get("anyInit") or {}).get("name") == lv[1]:
+                            txt = A.src(A.kids(ci)[0]) if A.kids(ci) else ""
+                            if capname in txt and ("*" in txt or "+" in txt):
+                                detail["len_is"] = "%s = %s" % (lv[1], txt)
+                                return False, detail
         return None, detail
     if shape == "forwarded":
         if isinstance(lv, tuple) and lv[0] == "param":
